@@ -76,12 +76,12 @@ public:
   //! Scalar multiplication
   template<typename U>
   Vector& operator *= (const U& a)
-    { for (unsigned i=0; i<N; i++) x[i] *= a; return *this; }
+    { const U c (a); for (unsigned i=0; i<N; i++) x[i] *= c; return *this; }
 
   //! Scalar division
   template<typename U>
   Vector& operator /= (const U& a)
-    { for (unsigned i=0; i<N; i++) x[i] /= a; return *this; }
+    { const U c (a); for (unsigned i=0; i<N; i++) x[i] /= c; return *this; }
 
   //! Equality
   bool operator == (const Vector& b) const
